@@ -247,6 +247,7 @@ def _case(kind, sp, mode, td, fb, top, alt, pre, verbose):
 
 def w_spell(kind: int, sp: int, mode: int) -> str:
     """
+    pre: PARTITION is None or kind == PARTITION
     pre: 0 <= kind < 6 and 0 <= sp < NSP and 0 <= mode < 8
     post: _ == ''
     """
@@ -255,6 +256,7 @@ def w_spell(kind: int, sp: int, mode: int) -> str:
 
 def w_dirs(kind: int, top: int, alt: int, pre: int, sp: int) -> str:
     """
+    pre: PARTITION is None or kind == PARTITION
     pre: 0 <= kind < 6 and 0 <= top < 6 and 0 <= alt < 3 and 0 <= pre < 9 and 0 <= sp < 3
     post: _ == ''
     """
@@ -263,6 +265,7 @@ def w_dirs(kind: int, top: int, alt: int, pre: int, sp: int) -> str:
 
 def w_opts(kind: int, td: int, fb: int, alt: int, verbose: int, sp: int) -> str:
     """
+    pre: PARTITION is None or kind == PARTITION
     pre: 0 <= kind < 6 and 0 <= td < 3 and 0 <= fb < 4 and 0 <= alt < 3 and 0 <= verbose < 3 and 0 <= sp < 3
     post: _ == ''
     """
@@ -303,11 +306,11 @@ def obligations(tier):
         CH('K1_dot_entries_all_strings', MOD, 'k1_dot', timeout=90 if tier == 'quick' else 900, partitions=[6 if tier == 'quick' else 10], engine='K', regime='traced',
            encodes=['trashcli.put.core.trashee.should_skipped_by_specs'],
            bounds='path: any str, len <= %d' % (6 if tier == 'quick' else 10), outside='longer strings'),
-        CH('W_spelling_x_kind_x_mode', MOD, 'w_spell', timeout=600, engine='W', regime='selector',
+        CH('W_spelling_x_kind_x_mode', MOD, 'w_spell', timeout=600, partitions=list(range(6)), engine='W', regime='selector',
            encodes=PUT_FUNCS, stubs=STUBS, bounds='6 kinds x %d spellings x 8 mode/reply combinations; default options' % NSP),
-        CH('W_trashdir_states', MOD, 'w_dirs', timeout=900, engine='W', regime='selector',
+        CH('W_trashdir_states', MOD, 'w_dirs', timeout=900, partitions=list(range(6)), engine='W', regime='selector',
            encodes=PUT_FUNCS, stubs=STUBS, bounds='6 kinds x 6 .Trash states x 3 .Trash-uid states x 9 pre-existing (incl. 250-byte names with an orphan on the truncated name, names ending in .trashinfo) x 3 spellings'),
-        CH('W_options', MOD, 'w_opts', timeout=900, engine='W', regime='selector',
+        CH('W_options', MOD, 'w_opts', timeout=900, partitions=list(range(6)), engine='W', regime='selector',
            encodes=PUT_FUNCS, stubs=STUBS, bounds='6 kinds x 3 --trash-dir x 4 fallback x 3 .Trash-uid x 3 -v x 3 spellings'),
     ]
     if tier == 'thorough':
